@@ -10,7 +10,7 @@ def tailsNE {α} : List α → List (List α)
 
 /-- the directories `find` visits for the (reversed, non-root) start path `q` -/
 def dirsOf (q : List Name) : List (Option Path) :=
-  (tailsNE q).map (fun s => some s.reverse) ++ [none, none]
+  (tailsNE q).map (fun s => some s.reverse) ++ [some [], none]
 
 def NoEmpty (p : Path) : Prop := ∀ c ∈ p, c ≠ []
 
@@ -48,7 +48,7 @@ theorem slices_eq (q : List Name) (hq : ∀ c ∈ q, c ≠ []) :
       simp at h
       exact hc h
 
-theorem walkDirs_root : walkDirs [] = [some [], none, none] := rfl
+theorem walkDirs_root : walkDirs [] = [some [], some [], none] := rfl
 
 theorem walkDirs_nonroot (p : Path) (hp : p ≠ []) (hne : NoEmpty p) :
     walkDirs p = dirsOf p.reverse := by
@@ -186,28 +186,53 @@ theorem cand_ls (fs : FS) (name : Name) (d : Path) (h : hasCandidate fs name d =
   | none => rw [hl] at h; cases h
   | some es => exact ⟨es, rfl⟩
 
+theorem dirsOf_nil : dirsOf [] = [some [], none] := rfl
+
+/-- listing the same directory twice in a row changes nothing -/
+theorem findFrom_dup (fs : FS) (name : Name) (d : Path) (rest : List (Option Path)) :
+    findFrom fs name (some d :: some d :: rest) = findFrom fs name (some d :: rest) := by
+  cases hl : fs.ls d with
+  | none => rw [step_noDir fs name d _ hl, step_noDir fs name d _ hl]
+  | some es =>
+    cases h1 : es.contains (pyFile name) with
+    | true => rw [step_module fs name d _ es hl h1, step_module fs name d _ es hl h1]
+    | false =>
+      cases h2 : (es.contains name && fs.ex (d ++ [name, initPy])) with
+      | true => rw [step_package fs name d _ es hl h1 h2, step_package fs name d _ es hl h1 h2]
+      | false => rw [step_next fs name d (some d :: rest) es hl h1 h2]
+
 theorem findFrom_nearest (fs : FS) (name : Name) (q : List Name) (d : Path)
     (h : foundDir (findFrom fs name (dirsOf q)) = some d) :
-    d.reverse <:+ q ∧ d ≠ [] ∧ hasCandidate fs name d = true ∧
+    d.reverse <:+ q ∧ hasCandidate fs name d = true ∧
       ∀ s', s' <:+ q → d.reverse <:+ s' → s' ≠ d.reverse → hasCandidate fs name s'.reverse = false := by
   induction q with
-  | nil => simp [dirsOf, tailsNE, findFrom, foundDir] at h
+  | nil =>
+    rw [dirsOf_nil] at h
+    cases hcand : hasCandidate fs name [] with
+    | true =>
+      rw [step_found fs name [] _ hcand] at h
+      cases h
+      refine ⟨List.suffix_refl _, hcand, ?_⟩
+      intro s' hs1 _ hs3
+      exact absurd (List.suffix_nil.1 hs1) hs3
+    | false =>
+      cases hl : fs.ls [] with
+      | none => rw [step_noDir fs name [] _ hl] at h; cases h
+      | some es =>
+        rw [step_skip fs name [] _ es hl hcand] at h
+        simp [findFrom, foundDir] at h
   | cons c r ih =>
     rw [dirsOf_cons] at h
     have hself : ∀ s', s' <:+ c :: r → (c :: r) <:+ s' → s' = c :: r := by
       intro s' h1 h2
       exact List.IsSuffix.eq_of_length_le h1 h2.length_le
     have hrr : ((c :: r).reverse).reverse = c :: r := List.reverse_reverse _
-    have hne : (c :: r).reverse ≠ [] := by
-      intro e
-      have := congrArg List.length e
-      simp at this
-    generalize hD : (c :: r).reverse = D at h hrr hne
+    generalize hD : (c :: r).reverse = D at h hrr
     cases hcand : hasCandidate fs name D with
     | true =>
       rw [step_found fs name D _ hcand] at h
       cases h
-      refine ⟨by rw [hrr]; exact List.suffix_refl _, hne, hcand, ?_⟩
+      refine ⟨by rw [hrr]; exact List.suffix_refl _, hcand, ?_⟩
       intro s' hs1 hs2 hs3
       rw [hrr] at hs2 hs3
       exact absurd (hself s' hs1 hs2) hs3
@@ -216,24 +241,25 @@ theorem findFrom_nearest (fs : FS) (name : Name) (q : List Name) (d : Path)
       | none => rw [step_noDir fs name D _ hl] at h; cases h
       | some es =>
         rw [step_skip fs name D _ es hl hcand] at h
-        obtain ⟨i1, i2, i3, i4⟩ := ih h
-        refine ⟨List.IsSuffix.trans i1 (List.suffix_cons c r), i2, i3, ?_⟩
+        obtain ⟨i1, i3, i4⟩ := ih h
+        refine ⟨List.IsSuffix.trans i1 (List.suffix_cons c r), i3, ?_⟩
         intro s' hs1 hs2 hs3
         rcases List.suffix_cons_iff.1 hs1 with e | hs1
         · rw [e, hD]; exact hcand
         · exact i4 s' hs1 hs2 hs3
 
 theorem findFrom_complete (fs : FS) (name : Name) (q : List Name)
-    (hex : ∀ s, s <:+ q → s ≠ [] → (fs.ls s.reverse).isSome = true)
-    (hc : ∃ s, s <:+ q ∧ s ≠ [] ∧ hasCandidate fs name s.reverse = true) :
+    (hex : ∀ s, s <:+ q → (fs.ls s.reverse).isSome = true)
+    (hc : ∃ s, s <:+ q ∧ hasCandidate fs name s.reverse = true) :
     ∃ d, foundDir (findFrom fs name (dirsOf q)) = some d := by
   induction q with
   | nil =>
-    obtain ⟨s, hs, hne, _⟩ := hc
-    exact absurd (List.suffix_nil.1 hs) hne
+    obtain ⟨s, hs, hcs⟩ := hc
+    rw [List.suffix_nil.1 hs] at hcs
+    exact ⟨[], by rw [dirsOf_nil]; exact step_found fs name [] _ hcs⟩
   | cons c r ih =>
     rw [dirsOf_cons]
-    have hls := hex (c :: r) (List.suffix_refl _) (List.cons_ne_nil _ _)
+    have hls := hex (c :: r) (List.suffix_refl _)
     cases hcand : hasCandidate fs name (c :: r).reverse with
     | true => exact ⟨_, step_found fs name _ _ hcand⟩
     | false =>
@@ -242,31 +268,47 @@ theorem findFrom_complete (fs : FS) (name : Name) (q : List Name)
       | some es =>
         rw [step_skip fs name _ _ es hl hcand]
         apply ih
-        · intro s hs hne
-          exact hex s (List.IsSuffix.trans hs (List.suffix_cons c r)) hne
-        · obtain ⟨s, hs, hne, hcs⟩ := hc
+        · intro s hs
+          exact hex s (List.IsSuffix.trans hs (List.suffix_cons c r))
+        · obtain ⟨s, hs, hcs⟩ := hc
           rcases List.suffix_cons_iff.1 hs with e | hs
           · rw [e, hcand] at hcs; cases hcs
-          · exact ⟨s, hs, hne, hcs⟩
+          · exact ⟨s, hs, hcs⟩
 
 theorem findFrom_notFound (fs : FS) (name : Name) (q : List Name)
-    (hno : ∀ s, s <:+ q → s ≠ [] → hasCandidate fs name s.reverse = false) :
+    (hno : ∀ s, s <:+ q → hasCandidate fs name s.reverse = false) :
     findFrom fs name (dirsOf q) = .notFound := by
   induction q with
-  | nil => simp [dirsOf, tailsNE, findFrom]
+  | nil =>
+    rw [dirsOf_nil]
+    have hc := hno [] (List.suffix_refl _)
+    cases hl : fs.ls [] with
+    | none => exact step_noDir fs name [] _ hl
+    | some es => rw [step_skip fs name [] _ es hl hc]; simp [findFrom]
   | cons c r ih =>
     rw [dirsOf_cons]
-    have hno' := hno (c :: r) (List.suffix_refl _) (List.cons_ne_nil _ _)
+    have hno' := hno (c :: r) (List.suffix_refl _)
     cases hl : fs.ls (c :: r).reverse with
     | none => exact step_noDir fs name _ _ hl
     | some es =>
       rw [step_skip fs name _ _ es hl hno']
-      exact ih (fun s hs hne => hno s (List.IsSuffix.trans hs (List.suffix_cons c r)) hne)
+      exact ih (fun s hs => hno s (List.IsSuffix.trans hs (List.suffix_cons c r)))
 
 theorem findFrom_ne_noSpec (fs : FS) (name : Name) (q : List Name) :
     findFrom fs name (dirsOf q) ≠ .noSpec := by
   induction q with
-  | nil => simp [dirsOf, tailsNE, findFrom]
+  | nil =>
+    rw [dirsOf_nil]
+    cases hcand : hasCandidate fs name [] with
+    | true =>
+      intro e
+      have := step_found fs name [] [none] hcand
+      rw [e] at this
+      cases this
+    | false =>
+      cases hl : fs.ls [] with
+      | none => rw [step_noDir fs name [] _ hl]; intro e; cases e
+      | some es => rw [step_skip fs name [] _ es hl hcand]; simp [findFrom]
   | cons c r ih =>
     rw [dirsOf_cons]
     cases hcand : hasCandidate fs name (c :: r).reverse with
